@@ -139,7 +139,7 @@ func checkC17() fw.Check {
 		Gen: func(tier string, seed int64) []fw.Case {
 			nDocs, nRuns := 100, 2
 			if tier == "thorough" {
-				nDocs, nRuns = 1500, 12
+				nDocs, nRuns = 5000, 30
 			}
 			var cases []fw.Case
 			for i := 0; i < nDocs; i++ {
